@@ -35,13 +35,16 @@ FORMS = {
     'F15': '=A1&I1', 'F16': '=I1&"|"&A1', 'F17': '=CONCATENATE(I1,A1,I1)', 'F18': '=MID(A1,D1,C1)&RIGHT(A1,C1)', 'F19': '="["&LEFT(A1)&RIGHT(A1)&"]"',
     'F20': '=VALUE(L1)', 'F21': '=VALUE(L1)+1',
     # Z9 is never written: a blank cell counts as 0 wherever a number is expected, it is not an omitted argument
+    # counts and positions that arrive as numbers stored as text: a quoted literal, a text cell (M1), the result of a text function
+    'F26': '="["&LEFT(A1,"2")&"]"', 'F27': '="["&MID(A1,"2","3")&"]"', 'F28': '="["&RIGHT(A1,LEFT("25",1))&"]"', 'F29': '="["&LEFT(A1,M1)&"]"',
+    'F30': '="["&MID(A1,M1,MID("x1y",2,1))&"]"', 'F31': '="["&RIGHT(A1,M1&"")&"]"',
     'F22': '="["&LEFT(A1,Z9)&"]"', 'F23': '="["&RIGHT(A1,Z9)&"]"', 'F24': '=LEFT(A1,Z9)&MID(A1,Z9+1,H1)', 'F25': '="["&MID(A1,D1,Z9)&"]"',
 }
-SLICERS = ['F1', 'F2', 'F3', 'F4', 'F5', 'F6', 'F7', 'F8', 'F9', 'F18', 'F19', 'F22', 'F23', 'F24', 'F25']
+SLICERS = ['F1', 'F2', 'F3', 'F4', 'F5', 'F6', 'F7', 'F8', 'F9', 'F18', 'F19', 'F22', 'F23', 'F24', 'F25', 'F26', 'F27', 'F28', 'F29', 'F30', 'F31']
 SEARCHERS = ['F10', 'F11']
 JOINERS = ['F12', 'F13', 'F14', 'F15', 'F16', 'F17']
 VALUERS = ['F20', 'F21']
-BASE = {'A1': 'abc', 'B1': 'b', 'C1': 1, 'D1': 1, 'E1': 1, 'H1': 3, 'I1': 1, 'L1': '12'}
+BASE = {'A1': 'abc', 'B1': 'b', 'C1': 1, 'D1': 1, 'E1': 1, 'H1': 3, 'I1': 1, 'L1': '12', 'M1': '2'}
 OPERANDS = [5, -3, 0, 12345, True, 1.0, False, 0.0, 1, None, 2.0, -7.0, 2.5, 0.1, -0.25, 'x', 'Yz', '', -0.0, 1e15, 123456789012345.0]      # None = blank cell (override '' is the empty text)
 NUMTEXTS = ['12', ' 12 ', '-3.5', '+7', '1e3', '1E3', '.5', '007', '1.50', '0', '-0', '3.', ' -4', '1e-2', '123456789012',
             # percentages, year-month-day dates (day serial), times of day as exact binary fractions, texts that denote no number
